@@ -65,6 +65,8 @@ def run(drv, pid, tier, seed, configs):
         lsig = [0, 1]
     else:
         lcfg, lsig = configs, [0, 1, 4]
+    # valgrind's 32-bit tools cannot write a log beyond 2 GiB, which the large windows exceed: the large pass stays on amd64
+    lcfg = [c for c in lcfg if "386" not in c] or [c for c in configs if "386" not in c][:1]
     import threading
     scratch0 = tempfile.mkdtemp(prefix="verif-c08-bins-")
     try:
@@ -80,7 +82,7 @@ def run(drv, pid, tier, seed, configs):
             bins[tags] = (b, symf)
         _tool(drv, "c08an")
         box = {}
-        th = threading.Thread(target=lambda: box.update(large=_pass(drv, pid, tier, seed, lcfg, lsig, "large", bins)))
+        th = threading.Thread(target=lambda: box.update(large=_pass(drv, pid, tier, seed, lcfg, lsig, "large", bins) if lcfg else None))
         th.start()
         main = _pass(drv, pid, tier, seed, configs, QUICK_SIGMAS if tier == "quick" else THOROUGH_SIGMAS, tier, bins)
         th.join()
@@ -222,6 +224,8 @@ def _pass(drv, pid, tier, seed, configs, sigmas, wtier, bins):
 
 
 def _finish(drv, pid, tier, seed, main, large):
+    if large is None:  # only 32-bit configurations were requested: no large pass
+        large = dict(viols=[], notes=["large pass skipped (32-bit configurations only)"], total_eval=0, names=[], sigmas=[0], samples=[], exhaustive=True, cov_cfg={}, configs=[], wall_s=0)
     t_end = time.time()
     meta = drv.CHECKS[pid]
     if not isinstance(main, dict) or not isinstance(large, dict):
